@@ -7,7 +7,7 @@ for m in sorted(glob.glob(os.path.join(ROOT, 'seeded', '*', 'meta.json'))):
     res = []
     for p, r in sorted(d.get('checks_run_against_it', {}).items()):
         if r['exit'] == 0:
-            res.append('%s: **missed**' % p)
+            res.append('%s: **missed**' % p if p == d.get('property') else '%s: silent (not this property)' % p)
         elif 'no-failing-input-found' in r['line']:
             res.append('%s: caught (correspondence/proof side only)' % p)
         else:
